@@ -4,12 +4,12 @@
 (* multiplication (bit 0 of the standard = most significant bit of limb 1). *)
 EXTENDS Modes
 
-GcmLimbs(b) == [k \in 1..8 |-> 256 * b[2 * k - 1] + b[2 * k]]
-GcmBytes(x) == [k \in 1..16 |-> IF k % 2 = 1 THEN x[(k + 1) \div 2] \div 256 ELSE x[k \div 2] % 256]
-GcmXor(x, y) == [k \in 1..8 |-> x[k] ^^ y[k]]
+GcmLimbs(b) == Strict([k \in 1..8 |-> 256 * b[2 * k - 1] + b[2 * k]])
+GcmBytes(x) == Strict([k \in 1..16 |-> IF k % 2 = 1 THEN x[(k + 1) \div 2] \div 256 ELSE x[k \div 2] % 256])
+GcmXor(x, y) == Strict([k \in 1..8 |-> x[k] ^^ y[k]])
 GcmBit(x, i) == (x[(i \div 16) + 1] \div (2 ^ (15 - (i % 16)))) % 2          \* bit i = 0..127, leftmost first
 \* 6.3 Algorithm 1: X . Y with R = 11100001 || 0^120
-GcmShiftR(v) == [k \in 1..8 |-> (v[k] \div 2) + (IF k > 1 THEN (v[k - 1] % 2) * 32768 ELSE 0)]
+GcmShiftR(v) == Strict([k \in 1..8 |-> (v[k] \div 2) + (IF k > 1 THEN (v[k - 1] % 2) * 32768 ELSE 0)])
 GcmMulLimbs(x, y) ==
   LET Step(acc, i) ==      \* acc = <<Z, V>>, i = 1..128 stands for bit i-1
         LET Z == acc[1]  V == acc[2]
@@ -17,12 +17,12 @@ GcmMulLimbs(x, y) ==
             Vs == GcmShiftR(V)
             V1 == IF V[8] % 2 = 0 THEN Vs ELSE [Vs EXCEPT ![1] = Vs[1] ^^ 57600]   \* 0xE100
         IN <<Z1, V1>>
-  IN FoldLeft(Step, <<[k \in 1..8 |-> 0], y>>, Upto(128))[1]
+  IN FoldLeft(Step, <<Strict([k \in 1..8 |-> 0]), y>>, Upto(128))[1]
 \* 6.4 Algorithm 2: GHASH_H(X), Len(X) a multiple of 16:  Y_i = (Y_{i-1} xor X_i) . H
 GHash(H, X) ==
   LET h == GcmLimbs(H)
       Step(y, i) == GcmMulLimbs(GcmXor(y, GcmLimbs(BlockAt(X, 16, i))), h)
-  IN GcmBytes(FoldLeft(Step, [k \in 1..8 |-> 0], Upto(Len(X) \div 16)))
+  IN GcmBytes(FoldLeft(Step, Strict([k \in 1..8 |-> 0]), Upto(Len(X) \div 16)))
 \* 6.2 inc_32: the rightmost 32 bits incremented modulo 2^32
 GcmInc32(b) == Take(b, 12) \o IncBE(Drop(b, 12))
 \* 6.5 Algorithm 3: GCTR_K(ICB, X)
